@@ -43,6 +43,34 @@ def diffR (a b : Ranges) : Ranges := interR a (complR b)
 
 def allR : Ranges := [(0, cpLimit)]
 
+/-! linear-time union of canonical lists (used for the big category tables; `unionR` is the
+    builder's incremental `add_set`) -/
+
+def mergeF : Nat → Ranges → Ranges → Ranges
+  | 0, _, _ => []
+  | _+1, [], ys => ys
+  | _+1, xs, [] => xs
+  | f+1, x :: xs, y :: ys => if x.1 ≤ y.1 then x :: mergeF f xs (y :: ys) else y :: mergeF f (x :: xs) ys
+
+/-- merge two lists sorted by start -/
+def mergeR (xs ys : Ranges) : Ranges := mergeF (xs.length + ys.length + 1) xs ys
+
+def mergeAll : List Ranges → Ranges
+  | [] => []
+  | l :: ls => mergeR l (mergeAll ls)
+
+/-- fuse overlapping / adjacent neighbours of a list sorted by start -/
+def coalesceGo : (Nat × Nat) → Ranges → Ranges
+  | (a, b), [] => [(a, b)]
+  | (a, b), (c, d) :: rs => if c ≤ b then coalesceGo (a, Nat.max b d) rs else (a, b) :: coalesceGo (c, d) rs
+
+def coalesce : Ranges → Ranges
+  | [] => []
+  | r :: rs => coalesceGo r rs
+
+/-- union of canonical lists, linear in their total length -/
+def unionSorted (ls : List Ranges) : Ranges := coalesce (mergeAll ls)
+
 def isSurrogate (c : Nat) : Bool := decide (0xD800 ≤ c) && decide (c < 0xE000)
 
 /-- the first `n` scalar values of a set (what `iter_chars().take(n)` yields) -/
